@@ -86,6 +86,7 @@ func genC11(t *rapid.T) c11Case {
 	if rapid.IntRange(0, 2).Draw(t, "mode") == 0 {
 		// mode B: any type (named holders included), wire edits
 		cfg := c01Cfg()
+		cfg.Huge = false
 		cfg.MaxBytes = 2048
 		tv := genTV(cfg)(t)
 		msg, _ := genWireMsg(t, tv.S, tv.V, wireEditCfg{Shuffle: true, Insert: true, Retype: true, Renumber: true, MaxInsert: 3})
